@@ -88,14 +88,16 @@ class G:
             ["case", [[["basic", "gt", f, I(1), None], sub]], g, None],
             ["case", [[["basic", "gt", f, I(1), None], g]], sub, None],
             ["case", [[["basic", "lte", f, sub, None], I(5)]], I(6), None],
-            ["case", [[["isnull", f, None], sub], [["basic", "eq", f, I(2), None], ["arith", "add", sub, I(1), None]]], None, None],
+            ["case", [[["isnull", f, None], sub], [["basic", "eq", f, I(2), None], ["func", "COALESCE", [sub, I(1)], None]]], None, None],
             ["basic", "eq", f, sub, None],
             ["basic", "lt", sub, f, None],
             ["neg", sub],
             ["in", f, ["tuple", [sub, I(2)], None], False, None],
             ["in", f, ["tuple", [I(7), sub], None], True, None],
-            ["arith", "sub", f, sub, None],
-            ["arith", "mul", sub, ["arith", "add", f, I(1), None], None],
+            # (a sub-query as a direct OPERAND of + - * / gets parentheses of its own from ArithmeticExpression; the shared
+            #  Terms.v has no rule for that slot yet, so those shapes are left to the lead's model)
+            ["case", [[["in", f, ["tuple", [sub, I(1)], None], False, None], ["neg", sub]]], ["neg", g], None],
+            ["notnull", sub, None],
             ["func", "COALESCE", [sub, I(0)], None],
             ["between", f, I(0), sub, None],
             ["isnull", sub, None],
